@@ -207,6 +207,11 @@ impl Sys {
         let mut mono_lo = vec![0u64; n];
         mono_lo[n - 1] = 1 + (t > 2) as u64;
         plains.push(mono_lo);
+        // the largest lower-half coefficient: not smaller than a coefficient prime below t/2 when there is one
+        // (positive-monomial branch of multiply_plain with an unreduced scalar; seeded changes C02-C / C09-D)
+        let mut mono_mid = vec![0u64; n];
+        mono_mid[n / 2] = (t - 1) / 2;
+        plains.push(mono_mid);
         // secret key coefficients by an independent inverse transform of the key's first RNS component
         let key_mods = kit.moduli_at(kit.ctx.key_parms_id());
         let q0 = key_mods[0];
@@ -261,7 +266,8 @@ impl Sys {
         let n = self.n() as f64;
         let e = 21.0 * (2.0 * n + 1.0) + n + 2.0;
         let t = self.t() as f64;
-        let w = if self.bgv { log2(t * (e + 1.0)) + 1.0 } else { log2(t * e + t * t) + 1.0 };
+        // BFV: [t*phase]_q = t*e - rho with |rho| <= t/2 (the encoder rounds q*m/t exactly); BGV: m_centred + t*e
+        let w = if self.bgv { log2(t * (e + 1.0)) + 1.0 } else { log2(t * e + t) + 1.0 };
         Ok(St { ct, m: self.msgs[msg].clone(), wbits: w, prog: Arc::new(Prog::Fresh { msg, sym }) })
     }
 
@@ -1346,19 +1352,24 @@ pub fn param_sets(cfg: &RunCfg) -> Vec<(String, ParamSpec, usize, bool)> {
     // P2: BFV, power-of-two plain modulus, descending order
     v.push(("bfv_p2_pow2".to_string(), ParamSpec::new(Scheme::BFV, 4, chain(4, &[59, 50, 50, 40]), 16), 2, true));
     // P3: BFV, t larger than the smallest prime (multi-precision lift), ascending order
-    v.push(("bfv_p3_mplift".to_string(), ParamSpec::new(Scheme::BFV, 8, chain(8, &[13, 55, 60, 60]), 257), if th { 3 } else { 2 }, true));
+    v.push(("bfv_p3_mplift".to_string(), ParamSpec::new(Scheme::BFV, 8, { let mut q = vec![97u64]; q.extend(chain(8, &[55, 60, 60])); q }, 257), if th { 3 } else { 2 }, true));
     // P4: BGV, six 60-bit primes, t=17 (all 16 units as correction factors)
     v.push(("bgv_p4".to_string(), ParamSpec::new(Scheme::BGV, 4, chain(4, &[60, 60, 60, 60, 60, 60]), 17), if th { 3 } else { 2 }, true));
     // P5: BGV, t=5: small unit group, abstract fixpoint in the quick tier, depth 2
     v.push(("bgv_p5_t5".to_string(), ParamSpec::new(Scheme::BGV, 4, chain(4, &[60, 60, 60, 60, 60]), 5), if th { 3 } else { 2 }, true));
     // P6: BGV, multi-precision lift
-    v.push(("bgv_p6_mplift".to_string(), ParamSpec::new(Scheme::BGV, 8, chain(8, &[13, 55, 60, 60, 60]), 257), if th { 3 } else { 2 }, true));
+    v.push(("bgv_p6_mplift".to_string(), ParamSpec::new(Scheme::BGV, 8, { let mut q = vec![97u64]; q.extend(chain(8, &[55, 60, 60, 60])); q }, 257), if th { 3 } else { 2 }, true));
     // P7: single modulus: no key switching, no lower level
     v.push(("bfv_p7_single".to_string(), ParamSpec::new(Scheme::BFV, 4, chain(4, &[60]), 17), 2, true));
     // P8: special prime used for encryption (first level = key level)
     let mut sp = ParamSpec::new(Scheme::BGV, 4, chain(4, &[60, 60, 60]), 17);
     sp.special_enc = true;
     v.push(("bgv_p8_spenc".to_string(), sp, 2, true));
+    // a 30-bit plain modulus above the first prime (q0 < t): the rounding correction of BFV encryption uses q mod t, and
+    // (q mod t) mod q0 differs from it only here (seeded changes C07-C / C13-D / C01-A are this mutation)
+    v.push(("bfv_p22_big_t".to_string(), ParamSpec::new(Scheme::BFV, 4, chain(4, &[25, 50, 50]), crate::refmodel::bigu::primes_1_mod(8, 30, 1)[0]), 1, true));
+    // every prime = 1 (mod 2N*t): the BGV factor stays 1 through every modulus switch, q_last^-1 mod t == 1 (seeded change C10-D)
+    v.push(("bgv_p23_q_1_mod_t".to_string(), ParamSpec::new(Scheme::BGV, 4, crate::refmodel::bigu::primes_1_mod(8 * 17, 50, 4), 17), 1, true));
     // primes just above 2^(k-1): bits(product) < sum of bits(prime) (the library's own prime search never produces these)
     v.push(("bfv_p15_low_primes".to_string(), ParamSpec::new(Scheme::BFV, 4, chain_low(4, &[30, 30, 30, 30]), 17), 1, true));
     v.push(("bgv_p16_low_primes".to_string(), ParamSpec::new(Scheme::BGV, 4, chain_low(4, &[40, 40, 40]), 17), 1, true));
